@@ -169,10 +169,57 @@ func buildAccessorCalls() []accessorCall {
 		gv := gv
 		obj(fmt.Sprintf(`Object.Set("k", %s)`, gv.name), func(vm *otto.Otto, v otto.Value, o *otto.Object) error { return o.Set("k", gv.v) })
 	}
+	for _, gv := range nilGoValues {
+		gv := gv
+		add(fmt.Sprintf(`nil Go value %s: Otto.Set / ToValue`, gv.name), func(vm *otto.Otto, v otto.Value, o *otto.Object) error {
+			if err := vm.Set("__nil", gv.v); err != nil {
+				return err
+			}
+			if _, err := vm.Run(`[typeof __nil, String(__nil), JSON.stringify(__nil)].join()`); err != nil {
+				return err
+			}
+			_, err := vm.ToValue(gv.v)
+			return err
+		})
+		add(fmt.Sprintf(`nil Go value %s: Value.Call argument and this`, gv.name), func(vm *otto.Otto, v otto.Value, o *otto.Object) error {
+			if _, err := v.Call(v, gv.v, 1); err != nil {
+				return err
+			}
+			if _, err := vm.Call("Object.prototype.toString", gv.v, gv.v); err != nil {
+				return err
+			}
+			_, err := vm.Call("String", nil, gv.v)
+			return err
+		})
+		obj(fmt.Sprintf(`nil Go value %s: Object.Set / Object.Call argument`, gv.name), func(vm *otto.Otto, v otto.Value, o *otto.Object) error {
+			if err := o.Set("k", gv.v); err != nil {
+				return err
+			}
+			_, err := o.Call("toString", gv.v)
+			return err
+		})
+	}
 	return out
 }
 
 var errNotObject = fmt.Errorf("not an object")
+
+// nilGoValues: typed nil pointers, nil funcs/maps/slices and zero handles a host can hand to Set / ToValue / Call.
+var nilGoValues = []struct {
+	name string
+	v    interface{}
+}{
+	{"(*otto.Object)(nil)", (*otto.Object)(nil)}, {"(*otto.Otto)(nil)", (*otto.Otto)(nil)}, {"(*otto.Value)(nil)", (*otto.Value)(nil)}, {"(*otto.Script)(nil)", (*otto.Script)(nil)},
+	{"(*hostStruct)(nil)", (*hostStruct)(nil)}, {"(*int)(nil)", (*int)(nil)}, {"(*string)(nil)", (*string)(nil)}, {"(**int)(nil)", (**int)(nil)}, {"(*[]int)(nil)", (*[]int)(nil)}, {"(*map[string]int)(nil)", (*map[string]int)(nil)},
+	{"(func())(nil)", (func())(nil)}, {"(func(otto.FunctionCall) otto.Value)(nil)", (func(otto.FunctionCall) otto.Value)(nil)}, {"(func(int) (int, error))(nil)", (func(int) (int, error))(nil)},
+	{"map[string]int(nil)", map[string]int(nil)}, {"map[string]interface{}(nil)", map[string]interface{}(nil)}, {"[]int(nil)", []int(nil)}, {"[]interface{}(nil)", []interface{}(nil)}, {"[]otto.Value(nil)", []otto.Value(nil)},
+	{"(chan int)(nil)", (chan int)(nil)}, {"error(nil) in []error", []error{nil}}, {"[]*otto.Object{nil}", []*otto.Object{nil}}, {"map[string]*otto.Object{k:nil}", map[string]*otto.Object{"k": nil}},
+	{"struct{O *otto.Object}{}", struct{ O *otto.Object }{}}, {"&struct{V otto.Value; F func()}{}", &struct {
+		V otto.Value
+		F func()
+	}{}},
+	{"[]interface{}{(*otto.Object)(nil), (func())(nil)}", []interface{}{(*otto.Object)(nil), (func())(nil)}}, {"otto.Value{}", otto.Value{}},
+}
 
 var goSetValues = []struct {
 	name string
